@@ -23,12 +23,12 @@ Print Assumptions C03_parse_roundtrip.
    for every batch size >= 1, every completion order of the decoding threads, every selection (empty = default four),
    any name/tag length, any grouping of events into blocks, any number of status words / fragments *)
 Theorem C03_raw_roundtrip : forall f, wf_file f -> f_blocks f <> [] ->
-  forall chk pb sched dets, 1 <= pb -> (forall n, Permutation (sched n) (seq 0 n)) ->
-  arrays_gen chk (reader_fuel (enc_file f)) (enc_file f) (-1) pb (map Some dets) sched
+  forall chk lfix pb sched dets, 1 <= pb -> (forall n, Permutation (sched n) (seq 0 n)) ->
+  arrays_gen chk lfix (reader_fuel (enc_file f)) (enc_file f) (-1) pb (map Some dets) sched
   = ROk (columnar (sel_of (eff_dets dets)) (file_events f)).
 Proof.
-  intros f Hwf Hne chk pb sched dets Hpb Hs.
-  exact (arrays_all f Hwf pb Hpb sched Hs chk _ dets Hne (blocks_lt_reader_fuel f Hwf)).
+  intros f Hwf Hne chk lfix pb sched dets Hpb Hs.
+  exact (arrays_all f Hwf lfix pb Hpb sched Hs chk _ dets Hne (blocks_lt_reader_fuel f Hwf)).
 Qed.
 Print Assumptions C03_raw_roundtrip.
 
@@ -84,16 +84,26 @@ Print Assumptions C03_one_to_one.
    (ak.concatenate([])) instead of returning an empty array — refuted corner of the round trip *)
 Theorem C03_zero_event_file_raises : forall f, wf_file f -> f_blocks f = [] ->
   forall chk fuel pb names sched, 1 <= pb ->
-  arrays_gen chk fuel (enc_file f) (-1) pb names sched = RThrow RConcatEmpty.
-Proof. intros f Hwf He chk fuel pb names sched Hpb. apply arrays_zero_blocks_raises; assumption. Qed.
+  arrays_gen chk false fuel (enc_file f) (-1) pb names sched = RThrow RConcatEmpty.
+Proof. intros f Hwf He chk fuel pb names sched Hpb. apply arrays_zero_blocks_raises; [assumption|reflexivity|assumption]. Qed.
 Print Assumptions C03_zero_event_file_raises.
+(* ... with the repaired batch loop (proposed_fixes/C04_raw_reader_batch_loop.diff, lfix = true) the zero-event file
+   is read as the empty array, so the round trip then holds for any number of events *)
+Theorem C03_zero_event_file_repaired : forall f, wf_file f -> f_blocks f = [] ->
+  forall chk fuel pb dets sched, 1 <= pb -> (forall n, Permutation (sched n) (seq 0 n)) ->
+  arrays_gen chk true fuel (enc_file f) (-1) pb (map Some dets) sched = ROk (columnar (sel_of (eff_dets dets)) (file_events f)).
+Proof.
+  intros f Hwf He chk fuel pb dets sched Hpb Hs. unfold file_events. rewrite He. cbn [flat_map].
+  apply arrays_zero_blocks_fixed; [assumption|assumption|reflexivity|assumption].
+Qed.
+Print Assumptions C03_zero_event_file_repaired.
 
 (* non-vacuity: a concrete 3-event / 2-block file is well-formed and is read back as stated *)
 Example C03_example_wf : wf_file ex_file /\ f_blocks ex_file <> [].
 Proof. split; [apply wf_fileb_ok; vm_compute; reflexivity|discriminate]. Qed.
 Print Assumptions C03_example_wf.
 Example C03_example_read :
-  arrays_gen false (reader_fuel (enc_file ex_file)) (enc_file ex_file) (-1) 1 [Some Mdc; Some Emc] (fun n => rev (seq 0 n))
+  arrays_gen false false (reader_fuel (enc_file ex_file)) (enc_file ex_file) (-1) 1 [Some Mdc; Some Emc] (fun n => rev (seq 0 n))
   = ROk {| r_hdr := [[100; 0; 77; 0; 1; 2; 3; 4294967295]; [101; 1; 77; 1; 1; 2; 3; 4294967295]; [102; 2; 77; 2; 1; 2; 3; 4294967295]];
            r_dets := [ (Mdc, {| offsets := [0; 3; 6; 9];
                                 rows := [[3; 0; 7; 0]; [5; 111; 222; 1]; [5; 0; 0; 0];
